@@ -163,11 +163,46 @@ def superlinear(row):
     return None
 
 
+def type_shapes(seed, tier):
+    """ParseString runs mode inference over the type definitions: recursion of a definition through EVERY position of
+    every constructor (left and right operand, branch, under a shift), directly, through an alias and through a second
+    definition, with no head annotation and with each mode; plus generated type environments (lib/vlib/typegen.py)"""
+    out = []
+    pos = [("ten-left", "%s * 1"), ("ten-right", "1 * %s"), ("ten-both", "%s * %s"), ("lol-left", "%s -* 1"),
+           ("lol-right", "1 -* %s"), ("lol-both", "%s -* %s"), ("plus", "+{l : %s, r : 1}"), ("with", "&{l : %s, r : 1}"),
+           ("tree", "+{node : %s * %s, leaf : 1}"), ("nest", "&{l : (%s * 1) -* %s}"), ("self", "%s")]
+    def fill(p, x):
+        return p % ((x,) * p.count("%s"))
+    for m in ["", "rep ", "mul ", "aff ", "lin "]:
+        for pn, p in pos:
+            body = fill(p, "T")
+            b2 = body if not m else m + "(" + body + ")"
+            tag = "%s:%s" % (pn, m.strip() or "none")
+            out.append(("tshape:direct:" + tag, "typeshape", "type T = %s\nprc[a] : 1 = close self\n" % b2))
+            out.append(("tshape:alias:" + tag, "typeshape", "type T = U\ntype U = %s\nprc[a] : 1 = close self\n" % b2))
+            out.append(("tshape:mutual:" + tag, "typeshape", "type T = %s\ntype V = %s\nprc[a] : 1 = close self\n" % (fill(p, "V") if not m else m + "(" + fill(p, "V") + ")", b2)))
+            out.append(("tshape:three:" + tag, "typeshape", "type T = %s\ntype V = %s\ntype W = %s\n" % (fill(p, "V"), fill(p, "W"), b2)))
+        if m:
+            mm = m.strip()
+            for d, arrow in (("up", "/\\"), ("dn", "\\/")):
+                out.append(("tshape:shift:%s:%s" % (d, mm), "typeshape", "type T = %s %s %s T\n" % (mm, arrow, mm)))
+                out.append(("tshape:shift-in-choice:%s:%s" % (d, mm), "typeshape", "type T = +{next : %s %s %s T, stop : 1}\n" % (mm, arrow, mm)))
+    try:
+        from .. import typesuite as TS
+        items, cases = TS.build(seed, "quick")
+        n = 250 if tier == "quick" else 2000
+        out.extend(("tshape:gen:%s" % i, "typeshape-generated", t) for i, k, t in cases[:n])
+    except Exception:  # noqa: BLE001
+        pass
+    return out
+
+
 def run(b, ps, tier, seed):
     n_mut, n_rand = (1500, 1500) if tier == "quick" else (60000, 60000)
     cases = list(T.stream(seed, n_mut, n_rand))
     cases.append(("big:garbage", "big", garbage(seed, 4000)))
     cases.extend(short_texts())
+    cases.extend(type_shapes(seed, tier))
     violations = []
     t0 = time.time()
     impl, model, _ = ({}, {}, [])
